@@ -193,6 +193,7 @@ let () =
                         members := (false, int_of_string (after "f=" f), [], []) :: !members;
                         subspecs := (List.length !members - 1, spec) :: !subspecs
                     | _ -> raise (Unsupported "sub-group token"))
+                 else if starts "late:" t then raise (Unsupported "definitions behind a sub-group argument")
                  else if t = "model:pinned-subgroup" then pinned_sub := true
                  else if starts "order:" t then ()   (* definition order across members: no influence on the model *)
                  else if t = "out:usage" then raise (Unsupported "usage")) toks;
@@ -267,6 +268,8 @@ let () =
                    (match add_argument !subtab k () with Ok t' -> subtab := t' | _ -> raise Setup);
                    (k, c)) subs in
                let sgc = { sg_main = mc; sg_subs = sgsubs } in
+               (* one key, one argument - plain or sub-group (ArgH/SubGroup.v) *)
+               if not (sg_keys_ok sgc) then raise Setup;
                (match eval_sg !pinned_sub sgc minits (List.map (fun (_, (_, i, _, _)) -> i) subs) (List.map str_of_string !argv) with
                 | Ok st ->
                     let vals = List.sort compare
